@@ -161,6 +161,12 @@ impl Chooser {
         self.tape.push(Choice { label, n, v });
         v
     }
+    /// A dimension whose upper values only enumerated cases use: exploration draws below `n_explore` (so the seeded
+    /// mixes of earlier versions stay exactly what they were), replay accepts values below `n_total`.
+    pub fn choose_wide(&mut self, label: &'static str, n_explore: u64, n_total: u64) -> u64 {
+        let n = if matches!(self.mode, Mode::Explore(_)) { n_explore } else { n_total };
+        self.choose(label, n)
+    }
     /// Biased coin: true with probability num/den; the "no" answer is value 0.
     pub fn coin(&mut self, label: &'static str, num: u64, den: u64) -> bool {
         let v = self.choose(label, den);
